@@ -8,20 +8,27 @@ open StorageModel StorageModel.Driver StorageModel.C16
 
 abbrev Key := Bytes
 abbrev Nm := Bytes
+abbrev Tm := String
 
 def parseKey (s : String) : Key := (Bytes.ofHex s).getD []
 
-/-- the checker lets `name` through iff it is nil ("n") or lists "name" -/
-def checkerSetsName (c : String) : Bool :=
-  c = "n" || (c != "-" && (c.splitOn ",").contains "name")
+/-- the checker lets a field through iff it is nil ("n") or lists the field -/
+def checkerSets (c : String) (field : String) : Bool :=
+  c = "n" || (c != "-" && (c.splitOn ",").contains field)
+
+def parseTag (s : String) : Option Nm := if s = "~" then none else some (parseKey s)
+
+def mkVals (flag name mig cAt uAt tag : String) : Vals Nm Tm :=
+  { flag := flag = "t", migrate := mig = "t", cAt := cAt, uAt := uAt, tags := parseTag tag, name := parseKey name }
 
 /-- `topSys`: the context handed to Db.Update is a system context, so every operation's context is -/
-def parseOp (topSys : Bool) (s : String) : Option (Op Key Nm) :=
+def parseOp (topSys : Bool) (s : String) : Option (Op Key Nm Tm) :=
   match s.splitOn ":" with
-  | ["c", ctx, id, flag, name] =>
-    some (.create (topSys || ctx = "s") (parseKey id) (parseKey id).isEmpty (flag = "t") (parseKey name))
-  | ["u", ctx, id, flag, name, ch] =>
-    some (.update (topSys || ctx = "s") (parseKey id) (flag = "t") (parseKey name) (checkerSetsName ch))
+  | ["c", ctx, id, flag, name, mig, cAt, uAt, tag] =>
+    some (.create (topSys || ctx = "s") (parseKey id) (parseKey id).isEmpty (mkVals flag name mig cAt uAt tag))
+  | ["u", ctx, id, flag, name, ch, mig, cAt, uAt, tag] =>
+    some (.update (topSys || ctx = "s") (parseKey id) (mkVals flag name mig cAt uAt tag) (checkerSets ch "name")
+      (checkerSets ch "tags"))
   | ["d", ctx, id] => some (.delete (topSys || ctx = "s") (parseKey id))
   | ["r", id] => some (.read (parseKey id))
   | _ => none
@@ -36,27 +43,36 @@ def showErr : Err → String
   | .exists => "!exists"
   | .blank => "!blank"
 
-def viewModel (s : St Key Nm) (pool : List Key) : String :=
+def showStamp : Stamp Tm → String
+  | .now => "now"
+  | .given t => t
+
+def showTag : Option Nm → String
+  | none => "~"
+  | some t => Bytes.toWire t
+
+def viewModel (s : St Key Nm Tm) (pool : List Key) : String :=
   String.join (pool.map fun id =>
     Bytes.toWire id ++ "=" ++ (match s.get id with
-      | none => "f///-"
-      | some e => "t/" ++ tf e.isSystem ++ "/" ++ Bytes.toWire e.name ++ "/" ++
+      | none => "f//////-"
+      | some e => "t/" ++ tf e.isSystem ++ "/" ++ Bytes.toWire e.name ++ "/" ++ showTag e.tags ++ "/" ++
+          showStamp e.created ++ "/" ++ showStamp e.updated ++ "/" ++
           (match e.flag with | none => "-" | some true => "t" | some false => "f")) ++ ";")
 
-def readModel (s : St Key Nm) (id : Key) : String :=
+def readModel (s : St Key Nm Tm) (id : Key) : String :=
   match s.get id with
   | none => "none"
   | some e => tf e.isSystem ++ "/" ++ Bytes.toWire e.name
 
-def opResult (s : St Key Nm) (op : Op Key Nm) (o : Out Key Nm) : String :=
+def opResult (s : St Key Nm Tm) (op : Op Key Nm Tm) (o : Out Key Nm Tm) : String :=
   match o.err with
   | some e => showErr e
   | none => match op with
     | .read id => readModel s id
     | _ => "ok"
 
-def runTxModel (s : St Key Nm) (keepGoing : Bool) (ops : List (Op Key Nm)) (pool : List Key) : St Key Nm × String :=
-  let rec go (cur : St Key Nm) (ops : List (Op Key Nm)) (acc : List String) : St Key Nm × List String × String :=
+def runTxModel (s : St Key Nm Tm) (keepGoing : Bool) (ops : List (Op Key Nm Tm)) (pool : List Key) : St Key Nm Tm × String :=
+  let rec go (cur : St Key Nm Tm) (ops : List (Op Key Nm Tm)) (acc : List String) : St Key Nm Tm × List String × String :=
     match ops with
     | [] => (cur, acc.reverse, "")
     | op :: rest =>
@@ -78,38 +94,39 @@ def step (line : String) : String :=
   match splitSp line with
   | _kind :: p :: txs =>
     let pool := (p.splitOn ",").map parseKey
-    let r := txs.foldl (fun (acc : St Key Nm × List String) t =>
+    let r := txs.foldl (fun (acc : St Key Nm Tm × List String) t =>
       let (topSys, keep, ops) := parseTx t
       let o := runTxModel acc.1 keep (ops.filterMap (parseOp topSys)) pool
-      (o.1, acc.2 ++ [o.2])) (([] : St Key Nm), [])
+      (o.1, acc.2 ++ [o.2])) (([] : St Key Nm Tm), [])
     " ".intercalate r.2
   | _ => "bad-case"
 
 /-! ### spec: failing calls only *fail* (`!`), uncommitted partial states are not described (`*`),
     and the storage form of the flag is not part of the property (last field of a view entry `_`) -/
 
-def viewSpec (s : SSt Key Nm) (pool : List Key) : String :=
+def viewSpec (s : SSt Key Nm Tm) (pool : List Key) : String :=
   String.join (pool.map fun id =>
     Bytes.toWire id ++ "=" ++ (match s.get id with
-      | none => "f///_"
-      | some e => "t/" ++ tf e.1 ++ "/" ++ Bytes.toWire e.2 ++ "/_") ++ ";")
+      | none => "f//////_"
+      | some e => "t/" ++ tf e.isSys ++ "/" ++ Bytes.toWire e.name ++ "/" ++ showTag e.tags ++ "/" ++
+          showStamp e.created ++ "/" ++ showStamp e.updated ++ "/_") ++ ";")
 
-def runTxSpec (s : SSt Key Nm) (keepGoing : Bool) (ops : List (Op Key Nm)) (pool : List Key) : SSt Key Nm × String :=
-  let rec go (cur : SSt Key Nm) (ops : List (Op Key Nm)) (acc : List String) : SSt Key Nm × List String × String :=
+def runTxSpec (s : SSt Key Nm Tm) (keepGoing : Bool) (ops : List (Op Key Nm Tm)) (pool : List Key) : SSt Key Nm Tm × String :=
+  let rec go (cur : SSt Key Nm Tm) (ops : List (Op Key Nm Tm)) (acc : List String) : SSt Key Nm Tm × List String × String :=
     match ops with
     | [] => (cur, acc.reverse, "")
     | op :: rest =>
       match sstep cur op with
       | some s' =>
         let res := match op with
-          | .read id => (match cur.get id with | none => "none" | some e => tf e.1 ++ "/" ++ Bytes.toWire e.2)
+          | .read id => (match cur.get id with | none => "none" | some e => tf e.isSys ++ "/" ++ Bytes.toWire e.name)
           | _ => "ok"
         go s' rest (res :: acc)
       | none =>
         -- a refused create always aborts the body; other failures only in abort mode
         let isCreate := match op with | .create .. => true | _ => false
         let refusedCreate := match op with
-          | .create sys id blank flag _ => !blank && (cur.get id).isNone && flag && !sys
+          | .create sys id blank v => !blank && (cur.get id).isNone && v.flag && !sys
           | _ => false
         if keepGoing && !(isCreate && refusedCreate) then go cur rest ("!" :: acc)
         else (s, ("!" :: acc).reverse, "*")
@@ -120,10 +137,10 @@ def specStep (line : String) : String :=
   match splitSp line with
   | _kind :: p :: txs =>
     let pool := (p.splitOn ",").map parseKey
-    let r := txs.foldl (fun (acc : SSt Key Nm × List String) t =>
+    let r := txs.foldl (fun (acc : SSt Key Nm Tm × List String) t =>
       let (topSys, keep, ops) := parseTx t
       let o := runTxSpec acc.1 keep (ops.filterMap (parseOp topSys)) pool
-      (o.1, acc.2 ++ [o.2])) (([] : SSt Key Nm), [])
+      (o.1, acc.2 ++ [o.2])) (([] : SSt Key Nm Tm), [])
     " ".intercalate r.2
   | _ => "bad-case"
 
